@@ -135,6 +135,14 @@ def checks():
     out.append(('R6 ROLLBACK undoes every statement since BEGIN', con.execute('SELECT COUNT(*) FROM t').fetchone()[0] == 0 and not con.in_transaction, ''))
     con.execute('SAVEPOINT s'); con.execute('INSERT INTO t VALUES (3)'); con.execute('RELEASE s')
     out.append(('R6 an outermost RELEASE commits', con.execute('SELECT COUNT(*) FROM t').fetchone()[0] == 1 and not con.in_transaction, ''))
+    # R7: col IN (SELECT c FROM t WHERE P) is true for a row iff SOME row satisfying P carries the same value (the witness may be another row); `= NULL` is never true
+    c2 = sqlite3.connect(':memory:', isolation_level=None)
+    c2.execute('CREATE TABLE m (g INTEGER, id INTEGER, e INTEGER, s TEXT, PRIMARY KEY (g, id))')
+    c2.executemany('INSERT INTO m VALUES (?, ?, ?, ?)', [(1, 7, 5, 'a'), (2, 7, None, 'a'), (2, 8, 9, 'a')])
+    c2.execute("UPDATE m SET s = 'x' WHERE id IN (SELECT id FROM m WHERE g = 1 AND e > 3)")
+    out.append(('R7 IN (sub-select) matches through a witness row of another group', sorted(tuple(r) for r in c2.execute("SELECT g, id FROM m WHERE s = 'x'")) == [(1, 7), (2, 7)], ''))
+    out.append(('R7 a comparison with a bound NULL is never true', c2.execute('SELECT COUNT(*) FROM m WHERE e = ?', (None,)).fetchone()[0] == 0
+                and c2.execute('SELECT COUNT(*) FROM m WHERE e IS NULL').fetchone()[0] == 1, ''))
     return out
 
 
